@@ -253,7 +253,8 @@ ITEMS = location_types() + budget_types() + error_types() + [
     # merge expansion (C03): the three mutually recursive functions.  Termination measure: number of events still to
     # be read (a merge value is captured as a node that is shorter than what was left), then a rank.
     dict(src=D, path='fn pending_entries_from_events', props=['C03', 'C01'],
-         rewrites=[(r'collect_entries_from_map\(&mut replay, ', 'collect_entries_from_map(replay_as_dyn(&mut replay), ', None, 'R34'),
+         rewrites=[(r'\b\w+\.reserve\([^;]*\);', '', None, 'R36'),
+                   (r'collect_entries_from_map\(&mut replay, ', 'collect_entries_from_map(replay_as_dyn(&mut replay), ', None, 'R34'),
                    (r'capture_node\(&mut replay\)', 'capture_node(replay_as_dyn(&mut replay))', None, 'R34')],
          requires=[('buffer_below_2g_events', 'events@.len() <= i32::MAX')],
          ensures=[('C03:a_merge_value_is_null_a_mapping_or_a_sequence_anything_else_is_rejected', '''r is Ok ==> events@.len() > 0
@@ -280,6 +281,7 @@ ITEMS = location_types() + budget_types() + error_types() + [
          },
          canaries=['C03:a_merge_value_is_null_a_mapping_or_a_sequence_anything_else_is_rejected']),
     dict(src=D, path='fn pending_entries_from_live_events', props=['C03', 'C01'],
+         rewrites=[(r'\b\w+\.reserve\([^;]*\);', '', None, 'R36')],
          requires=[('stream_below_2g_events', 'old(ev).rest().len() <= i32::MAX')],
          ensures=[('only_consumes', 'r is Ok ==> final(ev).rest().len() <= old(ev).rest().len()'),
                   ('entries_are_captured_nodes', 'r is Ok ==> pending_ok(r->Ok_0@)'),
@@ -309,6 +311,7 @@ ITEMS = location_types() + budget_types() + error_types() + [
          },
          canaries=['C03:a_merge_value_is_null_a_mapping_or_a_sequence_anything_else_is_rejected']),
     dict(src=D, path='fn collect_entries_from_map', props=['C03', 'C01'],
+         rewrites=[(r'\b\w+\.reserve\([^;]*\);', '', None, 'R36')],   # R36: Vec::reserve only changes capacity
          requires=[('stream_below_2g_events', 'old(ev).rest().len() <= i32::MAX')],
          decreases='old(ev).rest().len(), 0int',
          proofs=[
